@@ -70,6 +70,47 @@ pub fn run(ctx: &mut Ctx) {
         }
         return;
     }
+    if wl == "hist" {
+        // VERIF_DBG_FILE=<C08 replay>: rebuild the initial solver, re-apply the recorded updates (vector and
+        // (index,value) forms), then solve with a trace
+        let path = std::env::var("VERIF_DBG_FILE").expect("VERIF_DBG_FILE");
+        let v: serde_json::Value = serde_json::from_str(&std::fs::read_to_string(path).unwrap()).unwrap();
+        let det = &v["detail"];
+        let p = problem::Problem::from_json(&det["initial_problem"]).expect("initial_problem");
+        let mut sj = det["settings"].clone();
+        if sj["time_limit"].is_null() {
+            sj["time_limit"] = serde_json::json!(1e300);
+        }
+        let mut st: clarabel::solver::DefaultSettings<f64> = serde_json::from_value(sj).expect("settings");
+        st.time_limit = f64::INFINITY;
+        let mut solver = problem::new_solver(&p, &st).unwrap();
+        for h in det["history"].as_array().unwrap() {
+            let op = h["op"].as_str().unwrap_or("");
+            let vals: Vec<f64> = h["values"].as_array().map(|a| a.iter().map(|x| x.as_f64().unwrap()).collect()).unwrap_or_default();
+            let idx: Option<Vec<usize>> = h["index"].as_array().map(|a| a.iter().map(|x| x.as_u64().unwrap() as usize).collect());
+            let r = match (op, idx) {
+                ("update_b", None) => solver.update_b(&vals).map_err(|e| format!("{e:?}")),
+                ("update_q", None) => solver.update_q(&vals).map_err(|e| format!("{e:?}")),
+                ("update_P", None) => solver.update_P(&vals).map_err(|e| format!("{e:?}")),
+                ("update_A", None) => solver.update_A(&vals).map_err(|e| format!("{e:?}")),
+                ("update_b", Some(i)) => solver.update_b(&(i, vals)).map_err(|e| format!("{e:?}")),
+                ("update_q", Some(i)) => solver.update_q(&(i, vals)).map_err(|e| format!("{e:?}")),
+                ("update_P", Some(i)) => solver.update_P(&(i, vals)).map_err(|e| format!("{e:?}")),
+                ("update_A", Some(i)) => solver.update_A(&(i, vals)).map_err(|e| format!("{e:?}")),
+                ("solve", _) => {
+                    let ev = problem::solve_observed(&mut solver).unwrap();
+                    println!("solve -> {} after {} iterations (recorded: {})", problem::status_name(solver.solution.status), solver.solution.iterations, h["status"]);
+                    for e in &ev {
+                        println!("  it {:3} {:?} a {:.2e} tau {:.3e} kap {:.3e} mu {:.3e} pres {:.2e} dres {:.2e} bz {:.3e} qx {:.3e} {}", e.iterations, e.kind, e.step_length, e.τ, e.κ, e.μ, e.res_primal, e.res_dual, e.dot_bz, e.dot_qx, problem::status_name(e.status));
+                    }
+                    Ok(())
+                }
+                (o, _) => Err(format!("unsupported op {o}")),
+            };
+            println!("{op}: {r:?}");
+        }
+        return;
+    }
     if wl == "C05r" {
         crate::c05::dbg_repeat(ctx.seed, case);
         return;
